@@ -39,6 +39,14 @@ macro_rules! resolution_error {
     };
 }
 
+/// The fields of a blob (or the variants of an enum) in the order they are
+/// written, so that which error is reported first doesn't depend on hashing.
+fn in_source_order(items: &HashMap<Identifier, ParserType>) -> Vec<(&Identifier, &ParserType)> {
+    let mut items: Vec<_> = items.iter().collect();
+    items.sort_by_key(|(ident, _)| (ident.span.line_start, ident.span.col_start));
+    items
+}
+
 trait Help {
     fn help(self, resolver: &Resolver, span: Span, message: String) -> Self;
     fn help_no_span(self, message: String) -> Self;
@@ -882,8 +890,8 @@ impl Resolver {
                     var,
                     span,
                     variables: variables.iter().map(|var| var.name.clone()).collect(),
-                    fields: fields
-                        .iter()
+                    fields: in_source_order(fields)
+                        .into_iter()
                         .map(|(field, ty)| Ok((field.name.clone(), (field.span, self.ty(ty)?))))
                         .collect::<ResolveResult<_>>()?,
                     external: *external,
@@ -896,8 +904,8 @@ impl Resolver {
                     var,
                     span,
                     variables: variables.iter().map(|var| var.name.clone()).collect(),
-                    variants: variants
-                        .iter()
+                    variants: in_source_order(variants)
+                        .into_iter()
                         .map(|(var, ty)| Ok((var.name.clone(), (var.span, self.ty(ty)?))))
                         .collect::<ResolveResult<_>>()?,
                 })
